@@ -699,3 +699,220 @@ func valueReachesSend(start ssa.Value) bool {
 	}
 	return false
 }
+
+// ---------------------------------------------------------------- R-ERR-4
+
+func init() {
+	register(&Rule{
+		ID: "R-ERR-4",
+		Doc: "No path loses a write error (path-sensitive companion of R-ERR): from every call site of the write-path universe W, on every path on which the returned error is not known " +
+			"to be nil, the error value reaches a sink - it is returned, sent, stored in a field / global / captured variable, or passed to a non-logging callee (OnError, fmt.Errorf " +
+			"whose result is then followed) - before the function returns without it or the same call is executed again. A `break` that lets a later assignment overwrite the " +
+			"error, or a branch that only logs it, is a violation even though another path propagates it.",
+		Props: []string{"C06", "C13", "C04"},
+		Floor: 10,
+		Run:   ruleErr4,
+		Exceptions: []string{
+			"(*Store).writeSegments$1 -> (*bufferedSectionWriter).Stop (x2): the onError closure runs when an error is already being returned; the first error wins",
+			"newBufferedSectionWriter$1 -> io.WriterAt.WriteAt: the writer goroutine's `case <-stopCh: return` abandons a pending result only after Stop has collected the last one (R-ERR-2)",
+		},
+	})
+}
+
+func errSites(c *Ctx, f *ssa.Function, W map[*ssa.Function]bool) (sites []*ssa.Call, names []string) {
+	eachInstr(f, func(i ssa.Instruction) {
+		call, ok := i.(*ssa.Call)
+		if !ok {
+			return
+		}
+		name := ""
+		if p, ok := writePrimitive(call); ok {
+			name = p
+		} else if isFieldFuncCall(call, "CollectionOptions", "LowerLevelUpdate") {
+			name = "CollectionOptions.LowerLevelUpdate"
+		} else {
+			for _, cal := range c.Callees(call) {
+				if W[cal] {
+					name = c.fname(cal)
+					break
+				}
+			}
+		}
+		if name == "" || errResultIndex(call.Call.Signature()) < 0 {
+			return
+		}
+		sites = append(sites, call)
+		names = append(names, name)
+	})
+	return
+}
+
+func ruleErr4(c *Ctx) []*Ob {
+	o := newObs(c, "R-ERR-4")
+	W := writeUniverse(c)
+	except := map[string]bool{
+		"(*Store).writeSegments$1|(*bufferedSectionWriter).Stop": true,
+		// the section writer goroutine returns when stopCh is closed; Stop collects the last result before closing it (R-ERR-2)
+		"newBufferedSectionWriter$1|io.WriterAt.WriteAt": true,
+	}
+	for _, f := range c.Funcs {
+		if c.isHarness(f) {
+			continue
+		}
+		fn := c.fname(f)
+		sites, names := errSites(c, f, W)
+		for k, call := range sites {
+			construct := "call " + names[k]
+			if len(errValues(call)) == 0 {
+				continue // never extracted: R-ERR reports it
+			}
+			if except[fn+"|"+names[k]] {
+				o.trivial(fn, construct, c.instrPos(call), "table exception (see the rule's exceptions)")
+				continue
+			}
+			bad := errLostOnPath(c, f, call)
+			why := "on every path the error is nil, or reaches a return / channel / field / OnError before the function returns or repeats the call"
+			if bad != "" {
+				why = bad
+			}
+			o.add(fn, construct, c.instrPos(call), bad == "", why)
+		}
+	}
+	return o.list
+}
+
+// errLostOnPath walks forward from call k tracking its error result.
+func errLostOnPath(c *Ctx, f *ssa.Function, k *ssa.Call) string {
+	idx := errResultIndex(k.Call.Signature())
+	var seed []ssa.Value
+	if k.Call.Signature().Results().Len() == 1 {
+		seed = []ssa.Value{k}
+	}
+	tracked := func(t *tracker, v ssa.Value) bool {
+		if t.vals[v] {
+			return true
+		}
+		// a slice of a local array (varargs) one of whose elements holds the tracked value
+		if sl, ok := v.(*ssa.Slice); ok {
+			if arr, isA := sl.X.(*ssa.Alloc); isA {
+				if refs := arr.Referrers(); refs != nil {
+					for _, r := range *refs {
+						if ia, isIA := r.(*ssa.IndexAddr); isIA && t.cells[ia] {
+							return true
+						}
+					}
+				}
+			}
+		}
+		return false
+	}
+	bad := ""
+	walk(after(k), walkOpts{
+		origin: k, originIdx: idx, seed: seed, noInline: true,
+		visit: func(i ssa.Instruction, t *tracker) bool {
+			if bad != "" {
+				return true
+			}
+			switch x := i.(type) {
+			case *ssa.Return:
+				for _, r := range x.Results {
+					if tracked(t, r) {
+						return true
+					}
+				}
+				bad = "a path on which the error may be non-nil reaches the return at " + c.instrPos(i) + " without the error having been returned, stored, sent or handed to OnError: the failed write is reported as success (or only logged)"
+				return true
+			case *ssa.Send:
+				return tracked(t, x.X)
+			case *ssa.Select:
+				for _, st := range x.States {
+					if st.Dir == types.SendOnly && tracked(t, st.Send) {
+						return true
+					}
+				}
+			case *ssa.Store:
+				if !tracked(t, x.Val) {
+					return false
+				}
+				switch a := x.Addr.(type) {
+				case *ssa.FreeVar, *ssa.Global:
+					return true
+				case *ssa.FieldAddr:
+					if _, local := a.X.(*ssa.Alloc); !local {
+						return true
+					}
+					t.cells[a.X] = true // a struct temporary now carries the error (ioBuf{err: err})
+				case *ssa.IndexAddr:
+					if _, local := a.X.(*ssa.Alloc); !local {
+						return true
+					}
+				}
+			case *ssa.MapUpdate:
+				return tracked(t, x.Value)
+			case *ssa.MakeClosure:
+				for _, b := range x.Bindings {
+					if t.vals[b] || t.cells[b] {
+						return true
+					}
+				}
+			case ssa.CallInstruction:
+				if i == ssa.Instruction(k) {
+					bad = "a path on which the error may be non-nil comes round to the same call again (" + c.instrPos(i) + ") without the error having been returned, stored, sent or handed to OnError: it is overwritten"
+					return true
+				}
+				cc := x.Common()
+				passes := false
+				for _, a := range cc.Args {
+					if tracked(t, a) {
+						passes = true
+					}
+				}
+				if !passes {
+					return false
+				}
+				if sf := cc.StaticCallee(); sf != nil {
+					if sf.Pkg == c.Moss && loggingCallees[c.fname(sf)] {
+						return false
+					}
+					if isStaticCall(x, "fmt", "Errorf") {
+						if val, ok := x.(*ssa.Call); ok {
+							t.vals[val] = true // wrapped: the new error carries it
+						}
+						return false
+					}
+					if isStaticCall(x, "fmt", "Sprintf") || isStaticCall(x, "fmt", "Printf") || isStaticCall(x, "fmt", "Println") {
+						return false
+					}
+					return true
+				}
+				if fv, _ := loadedField(cc.Value); fv != nil && fv.Name() == "Log" {
+					return false
+				}
+				return true
+			}
+			return false
+		},
+		edge: func(from, to *ssa.BasicBlock, label string, cond ssa.Value, onTrue bool, t *tracker) bool {
+			if bad != "" || label == "nil" {
+				return true
+			}
+			// `err == ErrSentinel` (a package-level error variable): on the equal edge the error is that
+			// sentinel, not an I/O failure - handling it there is a decision, not a loss
+			if b, ok := cond.(*ssa.BinOp); ok && (b.Op == token.EQL || b.Op == token.NEQ) {
+				x, y := b.X, b.Y
+				if t.vals[y] {
+					x, y = y, x
+				}
+				if t.vals[x] {
+					if ld, isLd := y.(*ssa.UnOp); isLd && ld.Op == token.MUL {
+						if _, isG := ld.X.(*ssa.Global); isG && (b.Op == token.EQL) == onTrue {
+							return true
+						}
+					}
+				}
+			}
+			return false
+		},
+	})
+	return bad
+}
